@@ -177,6 +177,25 @@ def check(ctx):
             fresh = any(e.kind == "RET" and e.a["func"].endswith(".decodeLength") for e in own)
             if not fresh:
                 continue
+            # infeasible arm: the extent is len(carry) + (a constant >= 1) + the decoded length (never negative), and the dispatch stands
+            # under len(carry) >= extent - that is the arm on which the width scan found no end of the length field and the
+            # completeness test then says "wait" (a framer that folds the two tests into one)
+            sl0 = D.a["args"][0]
+            if isinstance(sl0, tuple) and sl0[0] == "slice" and sl0[1] == B:
+                lv = leaves_of_sum(sl0[3])
+                lenB0 = ("call", ("builtin", "len"), (B,))
+                retv = [e.a["val"] for e in own if e.kind == "RET" and e.a["func"].endswith(".decodeLength")]
+                if lenB0 in lv and retv:
+                    rest0 = list(lv)
+                    rest0.remove(lenB0)
+                    for x in leaves_of_sum(retv[0]):
+                        if x in rest0:
+                            rest0.remove(x)
+                    consts0 = [x for x in rest0 if is_const(x) and isinstance(x[1], int)]
+                    guarded0 = any(isinstance(c.term, tuple) and c.term[:1] == ("cmp",) and lenB0 in (c.term[2], c.term[3]) and sl0[3] in (c.term[2], c.term[3])
+                                   for c in D.conds)
+                    if len(consts0) == len(rest0) and sum(x[1] for x in consts0) >= 1 and guarded0:
+                        continue
             n_disp += 1
             sl = D.a["args"][0]
             if not (isinstance(sl, tuple) and sl[0] == "slice" and sl[1] == B):
